@@ -11,6 +11,7 @@ options    buildable subsets are exactly those with supportIndex => supportSmiV1
            the package error
 """
 import itertools
+import os
 
 from mc import catalogue, mibspec
 from mc.env import error, parserFactory
@@ -337,6 +338,66 @@ class Options(object):
 
 
 
+class SharedCacheDirectory(object):
+    name = 'shared-cache-directory'
+    describe = ('parsers of two different dialects built one after the other over the SAME tempdir (the parser-table cache '
+                'directory): every ordered pair of 6 dialects; the second parser - and the first one, used again afterwards - '
+                'gives for the order texts and for every documented breakage what a parser of its dialect built without a cache '
+                'directory gives; also with a third parser of the first dialect built last')
+
+    DIALECTS = [[], ['supportSmiV1Keywords', 'supportIndex'], sorted(OPTIONS), ['commaAtTheEndOfImport'], ['mixOfCommasAndSpaces'],
+                ['commaAtTheEndOfSequence', 'uppercaseIdentifier']]
+
+    def blocks(self, tier):
+        return [{'first': i} for i in range(len(self.DIALECTS))]
+
+    def cases(self, block, tier):
+        for j in range(len(self.DIALECTS)):
+            if j != block['first']:
+                yield {'first': block['first'], 'second': j}
+
+    _plain = {}
+
+    def plain(self, i, texts):
+        key = (i, os.getpid())
+        if key not in self._plain:
+            p = parserFactory(**dict((o, True) for o in self.DIALECTS[i]))()
+            self._plain[key] = [parse(p, t) for t in texts]
+        return self._plain[key]
+
+    def run_case(self, case):
+        import shutil
+        import tempfile
+        texts = [t for _, t in ORDER_TEXTS] + [b['text'] for b in breakages()]
+        base = os.environ.get('VERIF_TMP') or ('/dev/shm' if os.path.isdir('/dev/shm') else None)
+        d = tempfile.mkdtemp(prefix='mcC17', dir=base)
+        try:
+            vs = []
+            made = []
+            for step, i in enumerate((case['first'], case['second'], case['first'])):
+                try:
+                    p = parserFactory(**dict((o, True) for o in self.DIALECTS[i]))(tempdir=d)
+                except Exception as exc:
+                    vs.append(('C17|shared-cache|parser-%d-cannot-be-built|%s' % (step + 1, type(exc).__name__), repr(exc)[:200]))
+                    break
+                made.append((i, p))
+                for j, q in made:
+                    got = [parse(q, t) for t in texts]
+                    want = self.plain(j, texts)
+                    bad = [k for k in range(len(texts)) if got[k] != want[k]]
+                    if bad:
+                        vs.append(('C17|shared-cache|dialect-behaves-differently-over-a-used-cache-directory|after-%d-parsers' % (step + 1),
+                                   'dialect %r (cache directory used by %r): text %r gives %r, without a cache directory %r' % (
+                                       self.DIALECTS[j], [self.DIALECTS[x] for x, _ in made], texts[bad[0]][:200],
+                                       got[bad[0]], want[bad[0]])))
+                        break
+                if vs:
+                    break
+            return 'ok' if not vs else 'bad', vs, 3
+        finally:
+            shutil.rmtree(d, ignore_errors=True)
+
+
 ORDER_JOB = r"""
 import sys, json, hashlib
 sys.path.insert(0, %(verif)r); sys.path.insert(0, %(repo)r)
@@ -408,4 +469,4 @@ class ConstructionOrders(object):
                                d2, label, alone[label], after[label], d1)))
         return json.dumps(after, sort_keys=True), vs, 8
 
-FAMILIES = [Lattice(), Breakages(), Options(), ConstructionOrders()]
+FAMILIES = [Lattice(), Breakages(), Options(), ConstructionOrders(), SharedCacheDirectory()]
